@@ -222,9 +222,11 @@ def decl_source(d, doc=False, derive_debug_enums=True, vis="pub "):
             args.append("default%s %s" % (sep, default_literal(d.get("defform", "lit"), val, d["s"])))
     if d.get("debug", False):
         args.append("debug")
+    if d.get("args_rev"):
+        args = args[:1] + args[1:][::-1]          # the options after the base type may come in any order
     if doc:
         out.append("/// the bitfield")
-    out.append("#[bitbybit::bitfield(%s)]" % ", ".join(args))
+    out.append("#[bitbybit::bitfield(%s%s)]" % (", ".join(args), "," if d.get("args_trailing") else ""))
     for extra in d.get("struct_attrs", []):
         out.append(extra)
     out.append("%sstruct %s {" % (vis, d["name"]))
